@@ -462,3 +462,37 @@ Proof.
   - intros F. destruct (race_check tr) as [[i j]|] eqn:E; [|reflexivity].
     exfalso. apply race_check_reports_a_race in E. exact (F _ _ E).
 Qed.
+
+(* the pair reported is the first race of the execution: no race ends at an earlier event *)
+Lemma hstep_fail_idx s e i j : hstep s e = inr (i, j) -> j = hidx s.
+Proof.
+  unfold hstep. destruct (hk e) as [l w|a r|].
+  - destruct (find _ (hacc s)); intros H; inversion H; reflexivity.
+  - destruct r; discriminate.
+  - discriminate.
+Qed.
+
+Lemma hrun_first tr rest : forall pre s i j,
+  tr = pre ++ rest -> HInv tr (length pre) s -> hrun s rest = inr (i, j) ->
+  forall i' j', (j' < N.to_nat j)%nat -> ~ is_race tr i' j'.
+Proof.
+  induction rest as [|e r IH]; intros pre s i j E I H; cbn in H; [discriminate|].
+  assert (Hm : nth_error tr (length pre) = Some e).
+  { rewrite E, nth_error_app2 by lia. now rewrite Nat.sub_diag. }
+  pose proof (hstep_inv tr (length pre) s e I Hm) as S.
+  destruct (hstep s e) as [s'|[i0 j0]] eqn:St.
+  - apply (IH (pre ++ [e]) s' i j); auto.
+    + rewrite <- app_assoc. exact E.
+    + rewrite app_length. cbn. rewrite Nat.add_1_r. exact S.
+  - inversion H; subst i0 j0. apply hstep_fail_idx in St. subst j.
+    rewrite (hi_idx _ _ _ I), Nat2N.id. intros i' j' L. apply (hi_free _ _ _ I). exact L.
+Qed.
+
+Theorem race_check_reports_the_first_race tr i j :
+  race_check tr = Some (i, j) ->
+  forall i' j', (j' < N.to_nat j)%nat -> ~ is_race tr i' j'.
+Proof.
+  unfold race_check. intros H.
+  destruct (hrun hinit tr) as [s'|[i0 j0]] eqn:R; [discriminate|]. inversion H; subst.
+  exact (hrun_first tr tr [] hinit i j eq_refl (hinv_init tr) R).
+Qed.
